@@ -30,5 +30,5 @@ def run(ck):
               "every truncation, extensions, prefixes, block swaps, splices of two genuine cookies, MAC transplants, cookies of other keys/algorithms and arbitrary strings must be rejected with the cookie cleared; whenever "
               "load succeeds its result is a recorded save; weak/inconsistent configurations are refused. non-trivial = distinct genuine cipher texts (each the origin of ~100..1000 tampered ones)",
               "cookies_total", "cookies", min_evals=50000,
-              required_nonzero=("genuine_accepted", "expired_rejected", "tampered_bitflip", "tampered_truncate", "tampered_splice", "tampered_other-key-or-algorithm", "arbitrary_cookies",
+              required_nonzero=("genuine_accepted", "expired_rejected", "tampered_bitflip", "tampered_truncate", "tampered_splice", "tampered_other-key-or-algorithm", "tampered_near-key", "arbitrary_cookies",
                                 "confidentiality_checks", "deadline_edge_checks", "configuration_checks"))
